@@ -455,6 +455,70 @@ def rule_X10(ctx, rule: str = "X10") -> None:
     ctx.floor(rule, "helper x topology", n_ob, 15)
 
 
+
+def rule_X13(ctx, rule: str = "X13") -> None:
+    """a well-known type (package google.protobuf) is referenced through the bundled betterproto.lib package from every
+    package except google.protobuf itself: on each path of get_type_reference that leaves the referenced package
+    google.protobuf as it is (no redirection to betterproto.lib), what lets it do so is a test that the *whole* current package
+    equals google.protobuf - not a test on a prefix of it (google.protobuf.compiler is another package: a relative import from
+    there reaches an empty intermediate module, or a user-generated copy) and not a test on something else"""
+    mod = ctx.repo.mod(M_IMPORTING)
+    fn = mod.func("get_type_reference")
+    ctx.analysed("get_type_reference")
+    paths = Interp(mod, fork_ifexp=True).run(fn)
+    ctx.count(len(paths))
+    exact = {"(package.split('.') == ['google', 'protobuf'])", "(['google', 'protobuf'] == package.split('.'))", "(package == 'google.protobuf')", "('google.protobuf' == package)"}
+    bad = None
+    unknown = None
+    n_kept = n_redirected = 0
+    for p in paths:
+        if p.outcome != "return" or p.value is None:
+            continue
+        _nt = lambda t_: t_.replace("('google', 'protobuf')", "['google', 'protobuf']")     # a module-level constant list folds to a tuple
+        atoms = {_nt(show(k)): v for k, v in p.valuation.items()}
+        importing = [t for t, v in atoms.items() if "parse_source_type_name" in t and "['google', 'protobuf']" in t and "==" in t and v is True]
+        if not importing:
+            continue
+        # constant against constant: `[] == ['google', 'protobuf']` cannot hold
+        if any(t.startswith("([] == ['google'") and v is True for t, v in atoms.items()):
+            continue
+        if "'betterproto', 'lib'" in show(p.value) or any("'betterproto', 'lib'" in t for t in atoms):
+            n_redirected += 1
+            continue
+        n_kept += 1
+        cur = {}
+        for k, v in p.valuation.items():
+            t = _nt(show(k))
+            if "parse_source_type_name" in t or not ("google" in t and "protobuf" in t):
+                continue
+            if not any(x == N("package") for x in walk_(k)):
+                continue
+            if k[0] == "op" and k[1] == "!=":
+                t, v = t.replace(" != ", " == ", 1), not v
+            cur[t] = v
+        holds = [t for t, v in cur.items() if v is True]
+        if not cur:
+            unknown = unknown or f"a path keeps google.protobuf un-redirected without any recognisable test of the current package: {sorted(atoms)[:3]}"
+        elif not holds:
+            # all tests of the current package failed, yet no redirection
+            bad = bad or ("none of the tests of the current package holds", sorted(cur))
+        elif any(t not in exact for t in holds):
+            bad = bad or ("the test that holds is not equality of the whole package", [t for t in holds if t not in exact])
+    name = "get_type_reference:well-known-types-from-the-bundled-lib"
+    if bad:
+        why, ts = bad
+        ctx.refuted(rule, name, ";".join(ts)[:100], mod.loc(fn),
+                    f"a reference to a google.protobuf type is left relative (not redirected to betterproto.lib) on a path where {why}: {ts}. A package that merely starts with "
+                    "google.protobuf (google.protobuf.compiler, the real plugin.proto) then imports the well-known types from its parent package, which holds none of them",
+                    "package google.protobuf.compiler with a field of type google.protobuf.Struct")
+    elif unknown:
+        ctx.inconclusive(rule, name, unknown[:300], mod.loc(fn))
+    elif not n_redirected:
+        ctx.inconclusive(rule, name, "no path redirects google.protobuf to the bundled package", mod.loc(fn))
+    else:
+        ctx.proved(rule, name, mod.loc(fn), f"{n_redirected} redirected paths, {n_kept} paths inside google.protobuf itself")
+
+
 def _module_constant_table(mod, name: str) -> bool:
     """`name` is bound once at module level and nothing in the module stores into it or calls a mutating method on it"""
     binds = [st for st in mod.tree.body if isinstance(st, (ast.Assign, ast.AnnAssign)) and any(isinstance(t, ast.Name) and t.id == name for t in (st.targets if isinstance(st, ast.Assign) else [st.target]))]
@@ -576,7 +640,7 @@ def rule_X12(ctx, rule: str = "X12") -> None:
 
 
 def run(ctx) -> None:
-    for name, fn in (("X10", rule_X10), ("X9", rule_X9), ("X1", template.rule_X1), ("X2", rule_X2), ("X3", rule_X3), ("X4", rule_X4), ("X5", rule_X5), ("X6", rule_X6), ("X7", rule_X7), ("X8", rule_X8), ("X11", rule_X11), ("X12", rule_X12)):
+    for name, fn in (("X10", rule_X10), ("X9", rule_X9), ("X1", template.rule_X1), ("X2", rule_X2), ("X3", rule_X3), ("X4", rule_X4), ("X5", rule_X5), ("X6", rule_X6), ("X7", rule_X7), ("X8", rule_X8), ("X11", rule_X11), ("X12", rule_X12), ("X13", rule_X13)):
         ctx.rules_run.append(name)
         fn(ctx)
     from .c03 import rule_P7, rule_P13
